@@ -51,7 +51,7 @@ Inductive xtry_result (x : xpub) (n req len : Z) (toolong : bool) : xpub * outco
     l_tlen (xlog x) < x_off x + req -> two31 - 1 <= n ->
     xtry_result x n req len toolong
       (mkX (mkPub (xbumped (xlog x) (x_idx x) (x_tid x) (x_off x) req) false (ps_claim (x_pub x)))
-           (x_off x) (x_tid x) (x_idx x) (x_begin x), Err MaxPositionExceeded).
+           (l_tlen (xlog x)) (x_tid x) (x_idx x) (x_begin x), Err MaxPositionExceeded).
 
 (* what an exclusive append flavour does *)
 Definition xact_spec (l : log) (idx tid off req : Z) (r : outcome appended) : Prop :=
@@ -284,7 +284,7 @@ Lemma xtry_result_inv x n req len tl x' r :
   match r with
   | Ok _ => xpub_inv n x'
   | Err AdminAction => xpub_inv (n + 1) x'
-  | Err MaxPositionExceeded => x' = x \/ (n = two31 - 1 /\ xpub_inv n x' /\ xspec_pos x' = xspec_pos x)
+  | Err MaxPositionExceeded => x' = x \/ (n = two31 - 1 /\ xpub_inv n x' /\ xspec_pos x' = l_tlen (xlog x) * two31)
   | _ => x' = x
   end.
 Proof. intros Hinv Hreq H. pose proof Hinv as [Hleg Hn Hidx Htid Hbeg Hoff Hc].
@@ -313,10 +313,9 @@ Proof. intros Hinv Hreq H. pose proof Hinv as [Hleg Hn Hidx Htid Hbeg Hoff Hc].
   - destruct (xbumped_fields (xlog x) (x_idx x) (x_tid x) (x_off x) req) as (Bc & Bl & Bcn & Bg).
     rewrite !xlog_mk.
     split; [exact Bg|]. split; [congruence|]. split; [congruence|]. right. split; [lia|].
-    destruct Bg as (G1 & G2 & G3 & G4 & G5). split; [|reflexivity].
-    constructor; rewrite ?xlog_mk; cbn [x_pub ps_log x_idx x_tid x_begin x_off]; rewrite <- ?G1, <- ?G2; auto.
-    + eapply legal_same; [|exact Hleg]. repeat split; assumption.
-    + lia.
+    destruct Bg as (G1 & G2 & G3 & G4 & G5). split; [|unfold xspec_pos; cbn [x_begin x_off]; rewrite Hbeg; assert (En : n = two31 - 1) by lia; rewrite En; unfold two31; ring].
+    constructor; rewrite ?xlog_mk; cbn [x_pub ps_log x_idx x_tid x_begin x_off]; rewrite <- ?G1, <- ?G2; auto; try lia.
+    eapply legal_same; [|exact Hleg]. repeat split; assumption.
 Qed.
 
 Lemma env_step_log s o : l_count (ps_log (fst (env_step s o))) = l_count (ps_log s) /\ same_geom (ps_log s) (ps_log (fst (env_step s o))).
@@ -473,7 +472,7 @@ Theorem xpub_trip m rv x n o x' e : xpub_inv n x -> op_ok (xlog x) o -> is_xappe
              0 (wrap32 (x_tid x + 1)) ((n + 1) mod 3) (x_begin x + l_tlen (xlog x))) \/
    (e = MaxPositionExceeded /\ n = two31 - 1 /\
     x' = mkX (mkPub (xbumped (xlog x) (x_idx x) (x_tid x) (x_off x) (op_required (xlog x) o)) false (ps_claim (x_pub x)))
-             (x_off x) (x_tid x) (x_idx x) (x_begin x))).
+             (l_tlen (xlog x)) (x_tid x) (x_idx x) (x_begin x))).
 Proof. intros Hinv Hok Ha Hs Hne. destruct (xpub_step_cases m rv x n Hinv o Hok Ha) as [(len & _ & _ & E) | T].
   - rewrite E in Hs. congruence.
   - rewrite Hs in T. pose proof (xi_n _ _ Hinv) as Hn.
